@@ -83,26 +83,31 @@ def TIME_SAFE : Nat := 100000
 /-- `TimeDelta::seconds(n)` panics when `|n| > i64::MAX / 1000` -/
 def TIMEDELTA_MAX_SECS : Nat := I64_MAX / 1000
 
-/-- Model flag for findings C14/time-trigger-interval-zero-modulate and -out-of-range: `false` = the
-code as it is (panics); `true` = after a `fix:` commit that makes `TimeTriggerDeserializer` refuse a
-count of 0 and counts / delays above the safe range with an `Err` (the appender is then reported
-and dropped like any other broken appender). -/
-def timeTriggerValidated : Bool := false
+/-- `true` = the code as it is since /repo 80d997f (`fix: time trigger schedules in checked
+local-calendar arithmetic`): `TimeTrigger::new` / `get_next_time` never panic — a count below 1
+counts as 1, absurd counts and delays saturate to a far-future instant, DST gaps and overlaps are
+resolved.  `false` = the historical code, kept for the negative theorem
+(`C14_time_trigger_historical_panics`) and for the findings
+C14/time-trigger-interval-zero-modulate and C14/time-trigger-interval-out-of-range. -/
+def timeTriggerTotal : Bool := true
 
-/-- `TimeTrigger::new(config)` as reached from `TimeTriggerDeserializer`:
+/-- `TimeTrigger::new(config)` as reached from `TimeTriggerDeserializer`.  Historical code
+(`total = false`):
   * `modulate` and a count of 0: `x % 0` — PANIC (every unit);
   * unit second and a count above `i64::MAX / 1000`: `TimeDelta::seconds` — PANIC;
   * count and delay up to `TIME_SAFE` (and not the first case): constructed;
-  * everything else depends on the clock (`DateTime + TimeDelta` overflow, `with_ymd_and_hms`
-    out of range): modelled as PANIC, conservatively — the theorems only use the safe range and the
-    generators do not enter this region. -/
-def timeTriggerNew (u : TUnit) (n : Int) (modulate : Bool) (delay : Nat) : Outcome Err Unit :=
-  if timeTriggerValidated then
-    (if n = 0 ∨ n.toNat > TIME_SAFE ∨ delay > TIME_SAFE then .err .badValue else .ok ())
+  * everything else depended on the clock (`DateTime + TimeDelta` overflow, `with_ymd_and_hms`
+    out of range): modelled as PANIC, conservatively. -/
+def timeTriggerNewWith (total : Bool) (u : TUnit) (n : Int) (modulate : Bool) (delay : Nat) :
+    Outcome Err Unit :=
+  if total then .ok ()
   else if modulate ∧ n = 0 then .panic "attempt to calculate the remainder with a divisor of zero"
   else if u = .second ∧ n.toNat > TIMEDELTA_MAX_SECS then .panic "TimeDelta::seconds out of bounds"
   else if n.toNat ≤ TIME_SAFE ∧ delay ≤ TIME_SAFE then .ok ()
   else .panic "date arithmetic out of range (clock dependent)"
+
+def timeTriggerNew (u : TUnit) (n : Int) (modulate : Bool) (delay : Nat) : Outcome Err Unit :=
+  timeTriggerNewWith timeTriggerTotal u n modulate delay
 
 /-- encoder as the appender sees it: 0 = default pattern (no encoder given, or a pattern encoder
 without pattern), 1 = pattern encoder with a pattern, 2 = json -/
